@@ -189,7 +189,10 @@ func (am AppModule) EndBlock(ctx sdk.Context, _ abci.RequestEndBlock) []abci.Val
 	// TODO: for v1 use mode==1, just check the failed feeders
 	_, failed, sealed := agc.SealRound(ctx, forceSeal)
 	for _, feederID := range sealed {
-		am.keeper.RemoveNonceWithFeederIDForValidators(ctx, feederID, agc.GetValidators())
+		// for everybody: agc.GetValidators() is already the new set when the validator set changed in this
+		// block, and a validator that just left would keep its nonce entry of the sealed round - and with it
+		// fee-less admissions of price transactions although it is no validator any more
+		am.keeper.RemoveNonceWithFeederIDForAll(ctx, feederID)
 	}
 	// append new round with previous price for fail-seal token
 	for _, tokenID := range failed {
